@@ -68,6 +68,10 @@ def fam_bounds(tier):
         ('node', True, seq('off', push(S('x')), push(S('y')), push(S('x')), rep('off', 1, 3, 'drop'), opt('peek'), S('y'))),
         ('node', True, seq('off', push(S('x')), push(S('y')), rep('off', 0, 3, neg('pop')), 'peek')),
         ('node', True, seq('off', rep('off', 0, 3, push(S(''))), 'peekall', S('x'))),
+        # an optional that pushes and then fails, followed by a stack reader (parse AND check path must undo the push)
+        ('node', True, seq('off', opt(seq('off', push(S('x')), S('y'))), opt('peek'), S('x'))),
+        ('node', True, seq('off', push(S('x')), opt(seq('off', push(S('xy')), S('y'))), 'peek')),
+        ('node', True, ('pair', opt(('pair', push(S('x')), S('y'))), opt('peekall'))),
         # unbounded repetitions of stack operations: every iteration succeeds without consuming until the stack is empty
         ('node', True, seq('off', push(S('x')), push(S('y')), rep('off', 0, None, 'drop'), 'peekall', S('x'))),
         ('node', True, seq('off', push(S('x')), push(S('')), push(S('')), rep('off', 1, None, 'pop'), opt('peek'), S('y'))),
